@@ -10,9 +10,9 @@ MANIFEST = {
             "(outside /repo) decides that. That part - the actual property - is covered only by search, on two streams. Stream V: "
             "valid-by-construction XGo programs using every sugar (random, seeded): whenever the real cl.NewPackage reports success the written "
             "Go must parse (go/parser), type-check (go/types, export data, offline) and compile with gc (sample in quick, all in thorough); any "
-            "rejection is a violation keyed by judge and Go error class. Stream M: a FIXED, seed-independent regression list of 7 000 near-miss "
-            "mutants and corpus packages (quick: its first 1 500) with a committed baseline of the inputs the unchanged compiler accepts although "
-            "Go rejects the output (723 inputs, 20 Go error classes: XGo leaves many static checks to the Go compiler); a stream-M input is a "
+            "rejection is a violation keyed by judge and Go error class. Stream M: a FIXED, seed-independent regression list of 7 000 packages - a systematic "
+            "family of 427 programs violating one Go compile-time rule each, then near-miss mutants and corpus packages (quick: its first 1 500) with a committed baseline of the inputs the unchanged compiler accepts although "
+            "Go rejects the output (732 inputs, 37 Go error classes: XGo leaves many static checks to the Go compiler); a stream-M input is a "
             "violation iff it is accepted, its output is rejected, and (input id, class) is not in the baseline.",
     "note": "trusted: Lean kernel; translator extract/errsinks.go (unknown shapes break the tie); go/parser, go/types and gc as the judges of "
             "validity; generators/mutators of harness/compa. Stream M is a fixed regression list (corpus/C06/stream_m.jsonl.gz) with a per-input "
@@ -28,8 +28,8 @@ MANIFEST = {
                  "go/parser + go/types + gc",
 }
 
-RULE = ("stream V: every sugar piece alone (31) + N random combinations of 1-4 pieces (quick 600, thorough 3000), all valid by construction; "
-        "stream M: fixed list of 7000 packages (every 4th a corpus package of /repo as is, the others near-miss mutants by 16 mutation kinds "
+RULE = ("stream V: every sugar piece alone (35, incl. literal spellings and type expressions) + N random combinations of 1-4 pieces (quick 600, thorough 3000), all valid by construction; "
+        "stream M: fixed list of 7000 packages (427 one-rule-violated programs, then every 4th a corpus package of /repo as is, the others near-miss mutants by 16 mutation kinds "
         "of generated programs and corpus), quick = first 1500, thorough = all; non-trivial = parsed and handed to cl.NewPackage; distinct = "
         "distinct file set")
 
